@@ -42,6 +42,13 @@ CHECKS = {
         note="Trusted: the model's transition rule (DESIGN.md 3/C10; validated on the unchanged tree at every step of every history), the label canonicaliser for registry contents, fork() giving a pristine registry state per history. Single inheritance only. There is no clock, channel or scheduler in this property: the simulated nondeterminism is the order of operations, the faults are failing registrations.",
         technique="deterministic simulation of registration histories (fork-per-history world, failing registrations) with step-by-step refinement against an executable registry model; short histories enumerated",
         quick_timeout=900, thorough_timeout=10800),
+    "C16": dict(
+        category="exploration",
+        text="The nondeterminism C16 names - hash randomisation, process identity (object addresses) and insertion order - is put under the simulator's control: every seeded value recipe (C02 universe; keys of one mapping / set from one mutually comparable family; shared and recursive containers; sets of strings whose iteration order really varies) is built and dumped in 3-4 persistent worker interpreters that differ only in PYTHONHASHSEED (8 values, two derived from VERIF_SEED) and in a seeded amount of junk allocation, under 1-3 insertion permutations, with seeded option sets and SafeDumper / CSafeDumper / Dumper / CDumper. Checked: text byte-identical across interpreters; with sort_keys also across permutations; without sort_keys a loader sees insertion order; dump(load(t)) identical across interpreters and equal to t whenever the round trip is exact (guarded fixed point, anchors included); dump(load(t), sort_keys=False) == t (document order kept by load). Sampling is the right level: these are relations over pairs of runs on an unbounded value space; what matters is that each run really differs in the controlled dimension, which the reach probe (set iteration order differed between interpreters) measures.",
+        design_ref="DESIGN.md section 3, C16",
+        note="Trusted: CPython's PYTHONHASHSEED mechanism, the recipe builder (same value under every hash seed), the type-strict order-insensitive canonical form used as the exact-round-trip guard. The unguarded fixed point for values whose round trip is inexact (e.g. U+0085 under allow_unicode) is C02 territory and is counted, not decided. Clauses about load order are pure functions of the input and are sampled, not simulated.",
+        technique="deterministic simulation of hash randomisation, process identity and insertion order: same seeded value in several PYTHONHASHSEED worker interpreters x insertion permutations, byte-equality oracle",
+        quick_timeout=900, thorough_timeout=10800),
     "C18": dict(
         category="exploration",
         text="Seeded multi-document streams (documents from empty to several refill blocks, comment/blank gaps, '...' and directive boundaries, several blocks of tail) delivered as text / UTF-8 / UTF-16 through SimReader with seeded read-size schedules to scan / parse / compose_all / load_all on both back-ends. Three oracles: (bound) at each document delivery, units handed out by the stream minus the end of the document's terminating token <= 2 refill blocks (4096 units pure Python, 16384 LibYAML) with no extra tolerance; (order) k good documents + one malformed document (20 malformation kinds at scanner / parser / directive / composer / constructor / reader level): exactly the k documents are delivered, then the error; (release) with the cyclic GC disabled a weak reference to the stream dies as soon as the generator is closed, thrown into, dropped or exhausted, at seeded abandonment points, for all ten shipped loader classes. Sampling is the right level: the bound is a worst-case statement over unboundedly many (stream, schedule) pairs; the measured maxima (8187 / 16381) are reported so that the margin is visible.",
